@@ -33,6 +33,7 @@ import (
 type snapItem struct {
 	kind           string // s t m f
 	term, index, c int
+	bad            bool // round 8c: state.bin no longer matches the CRC in meta.json (`T.I.Cd`)
 }
 
 type snapsCase struct {
@@ -49,7 +50,11 @@ func (c snapsCase) input() string {
 		var w []string
 		for _, x := range c.items {
 			if x.kind == "s" {
-				w = append(w, fmt.Sprintf("%d.%d.%d", x.term, x.index, x.c))
+				d := ""
+				if x.bad {
+					d = "d"
+				}
+				w = append(w, fmt.Sprintf("%d.%d.%d%s", x.term, x.index, x.c, d))
 			} else {
 				w = append(w, x.kind)
 			}
@@ -69,13 +74,13 @@ func parseSnapsCase(f []string) (snapsCase, bool) {
 		c.absent = true
 	case "-":
 	default:
-		seen := map[[2]int]bool{}
 		for _, w := range strings.Split(f[0], ",") {
 			if w == "t" || w == "m" || w == "f" {
 				c.items = append(c.items, snapItem{kind: w})
 				continue
 			}
-			p := strings.Split(w, ".")
+			bad := strings.HasSuffix(w, "d")
+			p := strings.Split(strings.TrimSuffix(w, "d"), ".")
 			if len(p) != 3 {
 				return c, false
 			}
@@ -87,11 +92,11 @@ func parseSnapsCase(f []string) (snapsCase, bool) {
 				}
 				v[i] = n
 			}
-			if v[0] < 1 || v[0] > 90 || v[1] < 1 || v[1] > 9000 || v[2] >= len(cidTab) || seen[[2]int{v[0], v[1]}] {
+			if v[0] < 1 || v[0] > 90 || v[1] < 1 || v[1] > 9000 || v[2] >= len(cidTab) {
 				return c, false
 			}
-			seen[[2]int{v[0], v[1]}] = true
-			c.items = append(c.items, snapItem{"s", v[0], v[1], v[2]})
+			// round 8c: two snapshots of one (term, index) are allowed (the id = creation millisecond decides)
+			c.items = append(c.items, snapItem{"s", v[0], v[1], v[2], bad})
 		}
 	}
 	c.op = f[1]
@@ -149,8 +154,24 @@ func runSnaps(c snapsCase) string {
 		for _, it := range c.items {
 			switch it.kind {
 			case "s":
-				if _, err := writeFileSnapshot(folder, it.term, it.index, it.c); err != nil {
+				id, err := writeFileSnapshot(folder, it.term, it.index, it.c)
+				if err != nil {
 					fatal("snaps setup: %v", err)
+				}
+				if it.bad { // same length, one byte changed: FileSnapshotStore.Open reports "CRC mismatch"
+					sp := filepath.Join(folder, "snapshots", id, "state.bin")
+					b, err := ioutil.ReadFile(sp)
+					if err != nil {
+						fatal("snaps setup: state.bin of %s: %v", id, err)
+					}
+					if len(b) == 0 {
+						b = []byte{0x5a}
+					} else {
+						b[len(b)/2] ^= 0x5a
+					}
+					if err := ioutil.WriteFile(sp, b, 0644); err != nil {
+						fatal("snaps setup: %v", err)
+					}
 				}
 			case "t":
 				// an interrupted snapshot: complete content, the final rename did not happen
@@ -230,7 +251,52 @@ func genSnapsCase(r *common.Rng, k, total int) snapsCase {
 				}
 				seen[[2]int{t, ix}] = true
 				keys = append(keys, [2]int{t, ix})
-				c.items = append(c.items, snapItem{"s", t, ix, r.Intn(9)})
+				c.items = append(c.items, snapItem{"s", t, ix, r.Intn(9), false})
+			}
+		}
+	}
+	// round 8c: a damaged snapshot (half of the time the newest one) and/or a second snapshot of an existing (term, index)
+	var sn []int
+	for i, it := range c.items {
+		if it.kind == "s" {
+			sn = append(sn, i)
+		}
+	}
+	if len(sn) > 0 {
+		mode := r.Intn(10)
+		if mode == 0 || mode == 1 { // tie: created LAST or somewhere in between
+			src := c.items[sn[r.Intn(len(sn))]]
+			dup := snapItem{"s", src.term, src.index, (src.c + 1 + r.Intn(7)) % 9, false}
+			if r.Intn(2) == 0 {
+				c.items = append(c.items, dup)
+			} else {
+				at := r.Intn(len(c.items) + 1)
+				c.items = append(c.items[:at], append([]snapItem{dup}, c.items[at:]...)...)
+			}
+		}
+		if mode == 1 || mode == 2 || mode == 3 {
+			best := -1
+			for i, it := range c.items {
+				if it.kind != "s" {
+					continue
+				}
+				if best < 0 || it.term > c.items[best].term || (it.term == c.items[best].term && it.index >= c.items[best].index) {
+					best = i
+				}
+			}
+			if r.Intn(2) == 0 {
+				c.items[best].bad = true
+			} else {
+				var all []int
+				for i, it := range c.items {
+					if it.kind == "s" {
+						all = append(all, i)
+					}
+				}
+				c.items[all[r.Intn(len(all))]].bad = true
+				if r.Intn(3) == 0 {
+					c.items[all[r.Intn(len(all))]].bad = true
+				}
 			}
 		}
 	}
